@@ -14,7 +14,7 @@ use vmodel::{
 
 use super::{
     common::{hex, pick, unhex},
-    Check, PrepError, DEFAULT,
+    hookfree, Check, PrepError, DEFAULT,
 };
 
 pub fn fuzz_bin() -> String {
@@ -118,6 +118,7 @@ fn stack_stage() -> Result<Value, PrepError> {
 }
 
 fn prepare(tier: Tier, seed: u64, dir: &Path) -> Result<Value, PrepError> {
+    hookfree::build().map_err(PrepError::Inconclusive)?;
     let mut info = prepare_fuzz(tier, seed, dir)?;
     let st = stack_stage()?;
     if let (Some(a), Some(b)) = (info.as_object_mut(), st.as_object()) {
@@ -405,7 +406,51 @@ fn classify(ctx: &ShardCtx, prefix: &str, data: &[u8], r: &fuzzrun::Reach) {
     }
 }
 
+/// Every (name, longest_name) pair of a small grid through `Writer::write_list_element` from `Cli::write`: the column width
+/// is the caller's to choose (smaller than the name, between its character count and its length, larger)
+fn list_element_case(name: &str, longest: usize) -> Result<(), (String, String)> {
+    use vmodel::session::{Config, OutCall, RawSet, Sess};
+    let what = format!("write_list_element({:?}, \"d\", {})", name, longest);
+    let name2 = name.to_string();
+    let r = vmodel::engine::guarded(move || {
+        let cfg = Config { cmd_buf: 8, hist_buf: 0, ..Config::default() };
+        let (s, _) = Sess::<RawSet>::new(&cfg, None);
+        let mut s = s.map_err(|e| format!("{:?}", e))?;
+        let o0 = s.out_len();
+        s.write(&[OutCall::ListElement(name2.clone(), "d".into(), longest)]).map_err(|e| format!("{:?}", e))?;
+        Ok::<Vec<u8>, String>(s.out_from(o0))
+    });
+    match r {
+        Err(p) => Err((format!("{}: no panic", what), p)),
+        Ok(Err(e)) => Err((format!("{}: Ok on a working sink", what), e)),
+        Ok(Ok(out)) => {
+            let text = String::from_utf8_lossy(&out).to_string();
+            let min_pad = longest.saturating_sub(name.len());
+            let want = format!("{}{}", name, " ".repeat(min_pad));
+            if !text.contains(&want) || !text.contains('d') || out.len() > 64 + name.len() + longest {
+                return Err((format!("{}: the name, at least {} padding blanks and the description, nothing unbounded", what, min_pad), format!("{:?} ({} bytes)", text, out.len())));
+            }
+            Ok(())
+        }
+    }
+}
+
+const LIST_NAMES: [&str; 9] = ["", "a", "é", "имя", "температура", "₿𝄞", "x𝄞", "get-led", "值"];
+
 fn run_shard(ctx: &ShardCtx) {
+    if ctx.shard == 0 {
+        let mut n = 0u64;
+        'grid: for name in LIST_NAMES {
+            for longest in 0..=(2 * name.len() + 3) {
+                n += 1;
+                if let Err((e, o)) = list_element_case(name, longest) {
+                    ctx.fail(Failure::new("list-element", json!({"name": name, "longest": longest}), e, o));
+                    break 'grid;
+                }
+            }
+        }
+        ctx.class_n("write_list_element grid (name x longest_name)", n);
+    }
     ctx.run_prop("raw-session", ctx.tier.pick(1_000_000, 10_000_000), case_strategy(), |d| input_json(d), |data| match fuzzrun::run(data) {
         Ok(r) => {
             classify(ctx, "proptest", data, &r);
@@ -413,6 +458,8 @@ fn run_shard(ctx: &ShardCtx) {
         }
         Err(e) => Err(Failure::new("raw-session", Value::Null, "every invariant behind the unchecked operations holds after every byte", e)),
     });
+    // the same kind of session on the library as users build it (no verif-hooks), against the hooked build
+    hookfree::stage_raw(ctx, ctx.tier.pick(60_000, 1_000_000), case_strategy());
     // replay of the seed corpus and of what the fuzzing campaign kept, in the plain harness build
     let mut files: Vec<PathBuf> = Vec::new();
     let mut dirs = vec![PathBuf::from(seed_corpus())];
@@ -446,6 +493,12 @@ fn run_shard(ctx: &ShardCtx) {
 }
 
 fn replay(sub: &str, case: &Value) -> Verdict {
+    if sub == "list-element" {
+        return list_element_case(case["name"].as_str().unwrap_or(""), case["longest"].as_u64().unwrap_or(0) as usize).map_err(|(e, o)| Failure::new(sub, case.clone(), e, o));
+    }
+    if sub == hookfree::SUB {
+        return hookfree::replay(case);
+    }
     if sub == "stack-depth" {
         let (sc, n) = (case["scenario"].as_str().unwrap_or("write-linefeeds"), case["n"].as_u64().unwrap_or(1) as usize);
         return match stack_probe(sc, n, true) {
